@@ -120,6 +120,7 @@ func c14Run(sc *C14Scenario) (v *nodeViolation, flags map[string]bool) {
 	lastReqHi := map[int]time.Duration{} // upper bound
 	hasReq := map[int]bool{}
 	arrived := map[int]bool{}     // body processed
+	queued := map[int]bool{}      // body taken by a handler and waiting for the transaction thread: requests for it are neither demanded nor forbidden
 	confirmed := map[int]bool{}   // in a processed block
 	reannounced := map[int]bool{} // announced again after its confirmation
 	tracked := map[int]map[int]bool{}
@@ -192,7 +193,7 @@ func c14Run(sc *C14Scenario) (v *nodeViolation, flags map[string]bool) {
 				if arrived[i] {
 					continue
 				}
-				if !active(i) {
+				if !active(i) && !queued[i] {
 					expectReq[i] = true
 				}
 			}
@@ -220,10 +221,14 @@ func c14Run(sc *C14Scenario) (v *nodeViolation, flags map[string]bool) {
 		case "body":
 			for _, i := range ev.Txs {
 				tx := txs[i%sc.NTx]
+				before := len(sn.node.unconfTxChannel.Channel)
 				if ev.Src == 0 {
 					sn.deliver(tx)
 				} else {
 					uns[ev.Src-1].deliver(sn, tx)
+				}
+				if len(sn.node.unconfTxChannel.Channel) > before {
+					queued[i%sc.NTx] = true
 				}
 			}
 			if v := judgeFresh(collect(), where); v != nil {
@@ -244,8 +249,10 @@ func c14Run(sc *C14Scenario) (v *nodeViolation, flags map[string]bool) {
 				if i, ok := idOf[*td.Msg.TxHash()]; ok && confirmed[i] {
 					// a late body of a confirmed tx is dropped and the txid forgotten again
 					delete(hasReq, i)
+					delete(queued, i)
 				} else if ok {
 					arrived[i] = true
+					delete(queued, i)
 					delete(tracked[0], i) // the trusted tracker forgets a processed tx at once
 					flags["delivery"] = true
 				}
@@ -268,7 +275,7 @@ func c14Run(sc *C14Scenario) (v *nodeViolation, flags map[string]bool) {
 			// expectations: everything this connection tracks whose request window has expired
 			expect := map[int]bool{}
 			for i := range tracked[ev.Src] {
-				if !arrived[i] && !confirmed[i] && !active(i) {
+				if !arrived[i] && !confirmed[i] && !active(i) && !queued[i] {
 					expect[i] = true
 				}
 			}
